@@ -1109,7 +1109,7 @@ pub fn run(ctx: &Ctx) {
             // the address of the second is solved (the CRC is linear in the address bits) so that one of its reports
             // ends in the same three parity bytes as a report of the first heard a quarter of a second earlier: two
             // different frames that coincide in their checksum. What is decoded for an aircraft may not depend on it.
-            let cases: Vec<(u32, usize, bool)> = (0..ctx.tier.pick(24u32, 200u32)).map(|k| (0x3c0000 + k * 0x10f0f, (k as usize % 7) + 1, k % 3 == 0)).collect();
+            let cases: Vec<(u32, usize, bool)> = (0..ctx.tier.pick(24u32, 200u32)).map(|k| ((0x3c0000 + k * 0x10f0f) & 0xffffff, (k as usize % 7) + 1, k % 3 == 0)).collect();
             cases.par_iter().for_each(|(icao_a, j, df18)| {
                 let mk = |ac: usize, icao: u32, k: usize, lat0: f64, lon0: f64, off: f64| Report { ac, icao, ts: T0 + off + 0.5 * k as f64, arrival: T0 + off + 0.5 * k as f64, lat: lat0 + 0.0011 * k as f64, lon: lon0 + 0.0007 * k as f64, surface: false, odd: k % 2 == 1, df18: *df18 && ac == 1, alt_ft: 30_000 + 25 * k as i32, filler: 0, only_filler: false };
                 let a: Vec<Report> = (0..10).map(|k| mk(0, *icao_a, k, 48.0, 2.0, 0.0)).collect();
